@@ -43,7 +43,7 @@ const (
 
 func layout(t core.Tier) (hist, ivs int) {
 	if t == core.Thorough {
-		return 4000, 2000
+		return 3000, 2000
 	}
 	return 120, 200
 }
@@ -73,7 +73,7 @@ func init() {
 		Run: run,
 		MinNontrivial: func(t core.Tier) int {
 			if t == core.Thorough {
-				return 3000
+				return 2500
 			}
 			return 330
 		},
